@@ -363,3 +363,165 @@ impl V2 {
         }
     }
 }
+
+// ------------------------------------------------------------------------------------------------
+
+/// A view whose equal sub-documents are stored once and shared (`Rc`): the same container is reached from
+/// several parents, so its children have one address however they are reached.  Faithful as far as the
+/// trait goes - every accessor answers as for the plain tree.
+#[derive(Clone, Debug, PartialEq)]
+pub struct V4(pub std::rc::Rc<N4>);
+
+#[derive(Clone, Debug, PartialEq)]
+pub enum N4 {
+    Null,
+    Bool(bool),
+    Int(i64),
+    UInt(u64),
+    Float(f64),
+    Str(String),
+    Arr(Vec<V4>),
+    Obj(Vec<(String, V4)>),
+}
+
+impl Default for V4 {
+    fn default() -> Self {
+        V4(std::rc::Rc::new(N4::Str("<default>".to_string())))
+    }
+}
+impl From<&str> for V4 {
+    fn from(s: &str) -> Self {
+        V4(std::rc::Rc::new(N4::Str(s.to_string())))
+    }
+}
+impl From<String> for V4 {
+    fn from(s: String) -> Self {
+        V4(std::rc::Rc::new(N4::Str(s)))
+    }
+}
+impl From<bool> for V4 {
+    fn from(b: bool) -> Self {
+        V4(std::rc::Rc::new(N4::Bool(b)))
+    }
+}
+impl From<i64> for V4 {
+    fn from(i: i64) -> Self {
+        V4(std::rc::Rc::new(N4::Int(i)))
+    }
+}
+impl From<f64> for V4 {
+    fn from(f: f64) -> Self {
+        V4(std::rc::Rc::new(N4::Float(f)))
+    }
+}
+impl From<Vec<V4>> for V4 {
+    fn from(v: Vec<V4>) -> Self {
+        V4(std::rc::Rc::new(N4::Arr(v)))
+    }
+}
+
+impl Queryable for V4 {
+    fn get(&self, key: &str) -> Option<&Self> {
+        let key = strip_quotes(key);
+        match &*self.0 {
+            N4::Obj(m) => m.iter().find(|(k, _)| k == key).map(|(_, v)| v),
+            _ => None,
+        }
+    }
+    fn as_array(&self) -> Option<&Vec<Self>> {
+        match &*self.0 {
+            N4::Arr(a) => Some(a),
+            _ => None,
+        }
+    }
+    fn as_object(&self) -> Option<Vec<(&String, &Self)>> {
+        match &*self.0 {
+            N4::Obj(m) => Some(m.iter().map(|(k, v)| (k, v)).collect()),
+            _ => None,
+        }
+    }
+    fn as_str(&self) -> Option<&str> {
+        match &*self.0 {
+            N4::Str(s) => Some(s),
+            _ => None,
+        }
+    }
+    fn as_i64(&self) -> Option<i64> {
+        match &*self.0 {
+            N4::Int(i) => Some(*i),
+            _ => None,
+        }
+    }
+    fn as_f64(&self) -> Option<f64> {
+        match &*self.0 {
+            N4::Float(f) => Some(*f),
+            N4::UInt(u) => Some(*u as f64),
+            N4::Int(i) => Some(*i as f64),
+            _ => None,
+        }
+    }
+    fn as_bool(&self) -> Option<bool> {
+        match &*self.0 {
+            N4::Bool(b) => Some(*b),
+            _ => None,
+        }
+    }
+    fn null() -> Self {
+        V4(std::rc::Rc::new(N4::Null))
+    }
+}
+impl JsonPath for V4 {}
+
+impl V4 {
+    /// equal sub-documents (by their JSON text) become one shared node
+    pub fn from_j(j: &J) -> V4 {
+        fn go(j: &J, pool: &mut HashMap<String, V4>) -> V4 {
+            let key = format!("{:?}", j);
+            if let Some(v) = pool.get(&key) {
+                return v.clone();
+            }
+            let n = match j {
+                J::Null => N4::Null,
+                J::Bool(b) => N4::Bool(*b),
+                J::Int(i) => N4::Int(*i),
+                J::UInt(u) => N4::UInt(*u),
+                J::Float(f) => N4::Float(*f),
+                J::Str(s) => N4::Str(s.clone()),
+                J::Arr(a) => N4::Arr(a.iter().map(|x| go(x, pool)).collect()),
+                J::Obj(m) => N4::Obj(m.iter().map(|(k, v)| (k.clone(), go(v, pool))).collect()),
+            };
+            let v = V4(std::rc::Rc::new(n));
+            pool.insert(key, v.clone());
+            v
+        }
+        go(j, &mut HashMap::new())
+    }
+    pub fn to_j(&self) -> J {
+        match &*self.0 {
+            N4::Null => J::Null,
+            N4::Bool(b) => J::Bool(*b),
+            N4::Int(i) => J::Int(*i),
+            N4::UInt(u) => J::UInt(*u),
+            N4::Float(f) => J::Float(*f),
+            N4::Str(s) => J::Str(s.clone()),
+            N4::Arr(a) => J::Arr(a.iter().map(|x| x.to_j()).collect()),
+            N4::Obj(m) => J::Obj(m.iter().map(|(k, v)| (k.clone(), v.to_j())).collect()),
+        }
+    }
+    /// number of container nodes that are reachable by more than one route
+    pub fn shared_containers(&self) -> usize {
+        fn go(v: &V4, seen: &mut HashMap<usize, usize>) {
+            if matches!(&*v.0, N4::Arr(_) | N4::Obj(_)) {
+                *seen.entry(std::rc::Rc::as_ptr(&v.0) as usize).or_insert(0) += 1;
+            }
+            match &*v.0 {
+                N4::Arr(a) => a.iter().for_each(|x| go(x, seen)),
+                N4::Obj(m) => m.iter().for_each(|(_, x)| go(x, seen)),
+                _ => {}
+            }
+        }
+        let mut seen = HashMap::new();
+        go(self, &mut seen);
+        seen.values().filter(|n| **n > 1).count()
+    }
+}
